@@ -121,6 +121,15 @@ func c06Configs(tier string) []vmc.Cfg {
 		}
 		add(c06cfg{op: "optprovide", n: 5, k: 4, a: 3, lookupBeh: honest(5), putBeh: pb, addrMask: 1, filter: "none"})
 	}
+	// 3b. optimistic provide when a peer fails during the lookup (the K nearest learned peers then differ
+	// from the K nearest peers the lookup returns)
+	for lf := 0; lf < 5; lf++ {
+		for _, fb := range []string{sim.BReqFail, sim.BDialFail} {
+			lb := honest(5)
+			lb[lf] = fb
+			add(c06cfg{op: "optprovide", n: 5, k: 4, a: 3, lookupBeh: lb, putBeh: []string{"", "", "", "", ""}, addrMask: 1, filter: "none"})
+		}
+	}
 	// 4. corrective puts: every assignment of best/older/none
 	for _, n := range []int{3, 4} {
 		if tier != "thorough" && n == 4 {
